@@ -16,7 +16,7 @@ between 0 and 1 and a message"; "never aborts part-way because of internal bookk
 """
 from __future__ import annotations
 
-INV = ("INVARIANT HandlesUnique\nINVARIANT DeliveredInUnit\nINVARIANT NotifiesRegistered\nINVARIANT RefusalsAreSilent\n"
+INV = ("INVARIANT HandlesUnique\nINVARIANT DeliveredInUnit\nPROPERTY NotifiesRegistered\nINVARIANT RefusalsAreSilent\n"
        "INVARIANT CounterWithinTotal\nPROPERTY UnregisterHonest\n")
 ACTIONS = ["Register", "RegisterBad", "Unregister", "Enter", "Increment", "Exit"]
 
@@ -24,13 +24,13 @@ ACTIONS = ["Register", "RegisterBad", "Unregister", "Enter", "Increment", "Exit"
 def cfg_registry(max_hist, max_cb=2):
     """Registry-heavy plan: one object with a coarse notification step, every unregister argument."""
     return (f"SPECIFICATION Spec\nCONSTANTS\n    MaxHist = {max_hist}\n    MaxCb = {max_cb}\n    Oids = {{1}}\n    EnterTotals = {{2}}\n"
-            "    Steps = {50}\n    SetArgs = {}\n    NewTotals = {}\n    UnregArgs <- UnregAll\n" + INV)
+            "    Steps = {50}\n    SetArgs = {}\n    NewTotals = {}\n    UnregArgs <- UnregAll\n    OneShots = {FALSE, TRUE}\n" + INV)
 
 
 def cfg_machine(max_hist):
     """Machine-heavy plan: two nested objects, every call, one callback."""
     return (f"SPECIFICATION Spec\nCONSTANTS\n    MaxHist = {max_hist}\n    MaxCb = 1\n    Oids = {{1, 2}}\n    EnterTotals = {{0, 2, 3}}\n"
-            "    Steps = {1, 50}\n    SetArgs = {0, 1, 3, 4}\n    NewTotals <- KeepOr3\n    UnregArgs = {1}\n" + INV)
+            "    Steps = {1, 50}\n    SetArgs = {0, 1, 3, 4}\n    NewTotals <- KeepOr3\n    UnregArgs = {1}\n    OneShots = {FALSE}\n" + INV)
 
 
 MSG = {1: "outer", 2: "inner", 3: "message three", 4: "message four"}
@@ -44,10 +44,16 @@ class World:
         self.handles = []          # real handle of the k-th successful register (model handle k + 1)
         self.live = set()          # indices of the callbacks that are registered (by the return values the code gave)
         self.objs = {}
+        self.gone_during_call = set()
 
-    def callback(self, k):
+    def callback(self, k, once=False):
         def cb(*args, **kwargs):
             self.log.append((k, kwargs.get("progress", None), kwargs.get("message", None)))
+            if once and k in self.live:
+                # a one-shot listener: unregisters itself while the notification is being dispatched
+                self.live.discard(k)
+                self.gone_during_call.add(k)
+                self.P.unregister(self.handles[k])
         return cb
 
     def real_handle(self, h):
@@ -62,10 +68,11 @@ class World:
         P = self.P
         op, oid = rec["op"], rec["oid"]
         self.log = []
+        self.gone_during_call = set()
         try:
             if op == "register":
                 k = len(self.handles)
-                h = P.register(self.callback(k))
+                h = P.register(self.callback(k, once=bool(rec["f"])))
                 self.handles.append(h)
                 self.live.add(k)
                 return None, h
@@ -176,7 +183,7 @@ def judge_api_history(hist, ctx):
                 break
             emitted = len(w.log) > 0
             if emitted:
-                registered = sorted(w.live)
+                registered = sorted(w.live | w.gone_during_call)       # registered when the emission started
                 stale = [c for c in notified if c not in registered]
                 missing = [c for c in registered if c not in notified]
                 twice = sorted(c for c in set(notified) if notified.count(c) > 1)      # a call emits at most one notification
